@@ -33,6 +33,8 @@ func init() {
 				treeRejectionsRule(P, R, "C14.g", "keyshare", "the keyshare call tree")
 				treeRejectionsRule(P, R, "C14.g", "show", "the verification call tree")
 			}},
+		Rule{ID: "C14.h", Explain: "aliasing discipline: keyshare messages are not modified in place - no function mutates in place a big.Int it reached through gabi.ProofP / gabi.ProofPCommitment / gabi.KeyshareCommitmentRequest / gabi.KeyshareResponseRequest (math/big mutators write their receiver), except the tabled merge/refresh functions.",
+			Run: func(P *Program, R *Report) { inPlaceDisciplineRule(P, R, "C14.h", "gabi.ProofP", "gabi.ProofPCommitment", "gabi.KeyshareCommitmentRequest", "gabi.KeyshareResponseRequest") }},
 		Rule{ID: "C14.f", Explain: "BuildDistributedProofList: a ProofP list of the wrong length is an error; every builder's proof is created with the given challenge and merged with its ProofP when one is present.",
 			Run: func(P *Program, R *Report) { buildDistributedRule(P, R) }},
 	)
